@@ -82,12 +82,16 @@ def assume(cond):
         raise PreconditionFailed()
 
 
+EVALUATED = []
+
+
 def ensures(name, cond):
     if _MODE and _MODE[-1] == "summary":
         if not cond:
             PRE_FAILED.append(True)
             raise PreconditionFailed()
         return
+    EVALUATED.append(name)
     if not cond:
         FAILED.append(name)
 
@@ -129,7 +133,8 @@ def is_symbolic(v):
 
 
 def byte_at(b, i):
-    return b[i]
+    """spec helper: b[i]; outside the string an unspecified value (specifications guard it with a length condition)"""
+    return b[i] if 0 <= i < len(b) else 0
 
 
 def concrete_cases(x, lo, hi):
